@@ -3,6 +3,7 @@
   (`Generated/Surface.lean`), against the surface the model implements — see SurfaceDefs.lean.
 -/
 import Axelar.Proofs.SurfaceDefs
+import Axelar.Proofs.TokenManagerProofs
 namespace Axelar.Surface
 open Axelar Generated
 
@@ -29,5 +30,34 @@ def tokenManagerExpected : List (String × String × Bool × String × Nat) := [
 theorem tokenManager_surface : tokenManagerSurface.map sig = tokenManagerExpected := by decide
 
 theorem tokenManager_storage_no_alias : noAlias tokenManagerStorage = true ∧ keysNodup tokenManagerStorage = true := by decide
+
+end Axelar.Surface
+
+namespace Axelar.Surface
+open Axelar TokenManager
+
+/-- **The model changes a token manager's storage, moves tokens or registers an issuance only through an
+    endpoint of the regenerated surface**: every call of the model's dispatcher with such an effect is one of
+    the exported endpoints. -/
+theorem tokenManager_effects_only_through_surface (st : State) (ctx : Ctx) (func : String)
+    (args : List Bytes) (out : Out) (h : call st ctx func args = .ok out)
+    (hne : out.st ≠ st ∨ out.effects ≠ [] ∨ out.issue ≠ none) :
+    ∃ e ∈ Generated.tokenManagerSurface, e.kind = "endpoint" ∧ e.name = func := by
+  rcases call_cases st ctx func args out h with
+    ⟨_, _, hf, _⟩ | ⟨hf, _⟩ | ⟨_, hf, _⟩ | ⟨_, _, hf, _⟩ | ⟨hf, _⟩ | ⟨_, _, _, _, hf, _⟩ | ⟨r, hr, _⟩ | ⟨h1, h2, h3⟩
+  · subst hf; decide
+  · subst hf; decide
+  · subst hf; decide
+  · subst hf; decide
+  · subst hf; decide
+  · subst hf; decide
+  · have : ∀ f, RoleStep st ctx f r → ∃ e ∈ Generated.tokenManagerSurface, e.kind = "endpoint" ∧ e.name = f := by
+      intro f hf
+      cases hf <;> decide
+    exact this _ hr
+  · rcases hne with h | h | h
+    · exact absurd h1 h
+    · exact absurd h2 h
+    · exact absurd h3 h
 
 end Axelar.Surface
